@@ -265,8 +265,33 @@ def run_locs(args):
     return {'reproduced': got != args['want'], 'observed': got, 'expected': args['want']}
 
 
+def edited(desc, victim):
+    """observe every traversal, then remove node ``victim`` with its lines (the node with the highest index takes over its index) and add an
+    unconnected node, so that the node count is what it was: traversals must not depend on anything remembered from before the edit"""
+    from kyupy.circuit import Node
+    c = G.build(desc)
+    for nm in ('topological_order', 'topological_order_with_level', 'reversed_topological_order', 'topological_line_order'):
+        f = getattr(c, nm, None)
+        if f is not None:
+            list(f())
+    list(c.fanin([c.nodes[-1]]))
+    v = c.nodes[victim]
+    for l in [l for l in list(v.ins) + list(v.outs) if l is not None]:
+        l.remove()
+    v.remove()
+    Node(c, '__extra', 'BUF')
+    return c
+
+
+def history_shapes():
+    """a flip-flop in a feedback loop created last, an unused cell before it"""
+    for kind in ('DFF', 'latch', 'SDFFX1'):
+        yield {'nodes': [('a', 'input'), ('spare', 'BUF'), ('g', 'AND'), ('fk', '__fork__'), ('o', 'output'), ('ff', kind)],
+               'lines': [(0, 0, 2, 0), (5, 0, 2, 1), (2, 0, 3, 0), (3, 0, 5, 0), (3, 1, 4, 0)], 'io': [0, 4]}, 1, ('history', 'state-element-moves-into-freed-index', kind)
+
+
 def run_traversal(args):
-    c = G.build(args['desc'])
+    c = G.build(args['desc']) if 'edit' not in args else edited(args['desc'], args['edit'])
     v = check_circuit(c)
     if 'origins' in args:
         v += check_fanin(c, [c.nodes[i] for i in args['origins']])
@@ -332,7 +357,7 @@ def traversal_part(tier, seed):
     b = BoundedPart('C17-traversals', ['kyupy.circuit.Circuit.topological_order', 'topological_order_with_level', 'topological_line_order',
                                        'reversed_topological_order', 'fanin'],
                     'the shared circuit space (all 1-gate circuits x all subsets of unconnected pins, 2-gate chains, seeded random circuits with DFF/latch/forks/dangling '
-                    'outputs) plus dedicated unconnected-pin shapes (pin 0 / all pins / removed lines / output gaps) and wide shapes (a fork with 255..520 readers, a gate with 256 / 300 inputs); fan-in for every single origin and random origin sets; '
+                    'outputs) plus dedicated unconnected-pin shapes (pin 0 / all pins / removed lines / output gaps) and wide shapes (a fork with 255..520 readers, a gate with 256 / 300 inputs); fan-in for every single origin and random origin sets; edit histories (all traversals observed, a node removed so that the last node takes its index, a node added, all traversals checked again); '
                     'distinct = circuit structure; non-trivial = >= 1 line',
                     f'exhaustive-small family + {120 if tier == "quick" else 2500} seeded circuits')
     cases = itertools.chain(extra_circuits(seed, tier), logic_drv.circuit_cases(tier, seed))
@@ -348,4 +373,24 @@ def traversal_part(tier, seed):
             for clause, msg in check_fanin(c, origins):
                 b.violation(f'bounded:C17:{clause}', f'{clause} on {sig}, origins {[o.name for o in origins]}: {msg}', 'bounded.traversal_drv:run_traversal',
                             {'desc': desc, 'origins': [o.index for o in origins]}, function='kyupy.circuit.Circuit.fanin')
+    # edit histories: every traversal observed, one node removed (the last node moves into its index), one node added, traversals checked again
+    hist = list(history_shapes())
+    for c, sig in itertools.chain(extra_circuits(seed, tier), logic_drv.circuit_cases(tier, seed)):
+        if len(c.nodes) > 60:
+            continue
+        desc = G.describe(c)
+        rng = random.Random(sseed('edit' + str(sig)) & 0xffff)
+        cand = [n.index for n in list(c.nodes)[:-1] if not any(n is p for p in c.io_nodes)]
+        for vi in rng.sample(cand, min(len(cand), 2 if tier == 'quick' else 6)):
+            hist.append((desc, vi, ('edited', str(sig), vi)))
+    for desc, vi, sig in hist:
+        try:
+            c2 = edited(desc, vi)
+            viol = check_circuit(c2)
+        except Exception as e:  # noqa
+            viol = [('history:exception', repr(e))]
+        b.case(('edit', tuple(map(tuple, desc['nodes'])), tuple(map(tuple, desc['lines'])), vi), True, sample={'circuit': str(sig), 'removed_node': vi})
+        for clause, msg in viol:
+            b.violation(f'bounded:C17:after-edit:{clause}', f'{clause} after observing, removing node {vi} and adding a node on {sig}: {msg}', 'bounded.traversal_drv:run_traversal',
+                        {'desc': desc, 'edit': vi}, function='kyupy.circuit.Circuit.' + clause.split(':')[0])
     return b
